@@ -22,7 +22,13 @@ def mc_stage(tier):
     mod2 = os.path.join(core.SPEC, 'MC_HoneyWalk.tla')
     cfg2 = os.path.join(core.SPEC, 'MC_HoneyWalk.cfg' if tier == 'quick' else 'MC_HoneyWalk_thorough.cfg')
     r2 = core.tlc_must_pass(mod2, cfg2, 'HoneyWalk', timeout=3000)
-    return {'cfg': os.path.basename(cfg), 'states': r.distinct + r2.distinct, 'transitions': r.generated + r2.generated,
+    # symbolic strengthening (Apalache / SMT): the same invariant for every list of <= 8 entries with ARBITRARY integer masses,
+    # denominator and resolution; an 'Error' outcome is a counterexample on the model
+    apa = [core.apalache(os.path.join(core.SPEC, 'HoneyApa.tla'), inv) for inv in ('WalkIsOwnerA', 'OwnerUniqueA')]
+    for a in apa:
+        if a['outcome'] == 'Error':
+            raise core.MachineryError('Apalache found a counterexample to %s on HoneyApa.tla (model-level)' % a.get('invariant'))
+    return {'apalache': apa, 'cfg': os.path.basename(cfg), 'states': r.distinct + r2.distinct, 'transitions': r.generated + r2.generated,
             'wall_s': round(r.wall + r2.wall, 1),
             'HoneyWalk': {'cfg': os.path.basename(cfg2), 'states': r2.distinct, 'transitions': r2.generated}}
 
